@@ -323,7 +323,8 @@ class FftDomain(SymDomain):
         self.inv_args = {}
         self.abs_args = {}
         self.fft_calls = []
-        self.fftns = Namespace("numpy.fft", fft2=self.fft2, ifft2=self.ifft2)
+        self.fftns = Namespace("numpy.fft", fft2=self.fft2, ifft2=self.ifft2, fftshift=self._shift(np.fft.fftshift, "fftshift"),
+                               ifftshift=self._shift(np.fft.ifftshift, "ifftshift"))
         self.np.fft = self.fftns
         self.nonneg_atoms = {("lam",)}       # documented: lam >= 0
         self.pos_atoms = {("lam",)}          # the division clause is stated for lam > 0 (lam == 0: invertible blurs only)
@@ -505,6 +506,20 @@ class FftDomain(SymDomain):
         if name == "numpy.fft":
             return self.fftns
         return super().ext_module(name)
+
+    @staticmethod
+    def _shift(npf, name):
+        """fftshift / ifftshift are pure index rolls (by n//2 / -(n//2) per axis): numpy's own implementation is applied
+        to the label array, so the data movement is numpy's"""
+        def f(x, axes=None):
+            if isinstance(x, (Spec, SpecCond)):
+                raise Unsupported(f"np.fft.{name} of a spectrum (outside the per-frequency algebra of the FFT model)")
+            x = wrap(x)
+            try:
+                return wrap(npf(np.asarray(x, dtype=object), axes=axes), x.kind)
+            except (ValueError, IndexError, TypeError) as e:
+                raise ModelError(f"{name}: {e}")
+        return f
 
     def F(self, x):
         return Poly.atom(("F", content_key(x)))
